@@ -1,7 +1,14 @@
 import BeffVerif.Props.C11
+import BeffVerif.Props.C11Frag
 open BeffVerif.C11
 #print axioms strict_implies_default
 #print axioms strict_object_iff
 #print axioms strict_irrelevant_with_index
 #print axioms split_intersection_rejects_declared_keys
 #print axioms merged_intersection_accepts
+#print axioms BeffVerif.C11F.frag_no_throw
+#print axioms BeffVerif.C11F.tuple_ok_iff
+#print axioms BeffVerif.C11F.object_ok_iff
+#print axioms BeffVerif.C11F.strict_iff_default_and_noExtra
+#print axioms BeffVerif.C11F.strict_exactly_undeclared_keys
+#print axioms BeffVerif.C11F.strict_example
